@@ -71,9 +71,9 @@ THEOREMS = [
 # ------------------------------------------------------------------------------------------------
 # text
 
-HOSTILE = [";", "(", ")", "*", "!", "  ", "\t", "\r", "\n", "=", "@", " ", ":", "\"", ",", "é", "山田", "　", "-", "0", "~", "%"]
+HOSTILE = [";", "(", ")", "*", "!", "  ", "\t", "\r", "\n", "=", "@", " ", ":", "\"", ",", "é", "山田", "　", "-", "0", "~", "%", "#", "|"]
 WORDS = ["Migros", "shop", "evil", "Coop", "abc", "def", "山田商店", "Café", "x", "AG", "No.5", "a/b", "Tag:", "k:v", "1,000", "(ref)", "*star", "=eq",
-         "@at", "!bang", "ümlaut"]
+         "@at", "!bang", "ümlaut", "#4711", "#ref"]
 ACCOUNT_WORDS = ["Expenses", "Food", "Assets", "Bank", "銀行", "Okane Card", "A&B", "Misc(1)", "x=y", "Q@R"]
 COMMODITIES = ["CHF", "JPY", "USD", "EUR", "円", "€", "$", "Ab"]
 HOSTILE_COMMODITIES = ["CH F", "A1", "", "U$D;", "C(H)", "E-R", "X\nY"]
@@ -488,6 +488,12 @@ def gen_csv_case(rng, hostile_p):
                        {"matcher": {"payee": "Migros"}, "account": "Expenses:Grocery"},
                        {"matcher": {"payee": "shop"}, "account": "Expenses:Shop", "pending": True},
                        {"matcher": {"payee": "Coop"}, "payee": gen_text(rng, hostile_p / 2), "account": "Expenses:Coop"}]}
+    # counter-accounts whose width plus the width of the printed number lands on and around the alignment column (48):
+    # the layout must keep two blanks between account and amount there too, or the line reads back as one long account
+    wide = rng.random() < 0.4
+    if wide:
+        for k in range(28, 50):
+            doc["rewrite"].append({"matcher": {"payee": "^W%02dW" % k}, "account": "Expenses:" + "W" * (k - 9)})
     rows = []
     n = rng.randint(1, 6)
     style = rng.choice(AMOUNT_STYLES)
@@ -498,6 +504,11 @@ def gen_csv_case(rng, hostile_p):
         elif rng.random() < 0.1:
             payee = "P" + payee
         cents = rng.choice([1, -1]) * rng.randint(1, 10 ** rng.choice([2, 4, 6, 8]))
+        if wide and rng.random() < 0.7:
+            # width of the counter-posting's number (sign flipped, before any precision padding)
+            numw = len(fmt_amount(rng, abs(cents), scale, "plain")) + (1 if cents > 0 else 0)
+            k = min(49, max(28, 47 - numw + rng.choice([-2, -1, 0, 0, 0, 1, 2])))
+            payee = "W%02dW shop" % k
         row = {"date": "%04d-%02d-%02d" % gen_date(rng), "payee": payee}
         if use_cd:
             row["credit"] = fmt_amount(rng, cents, scale, style) if cents > 0 else ""
